@@ -160,7 +160,15 @@ def job_reader_sizes():
     # definitional hint (always satisfiable): n + 1 = 32*qh + rh, 0 <= rh < 32, so 80(n+1)/512 = 5*qh + 5*rh/32
     qh, rh = z3.Ints('qh rh')
     pre0 = [ni >= 1, ni <= 10000, ni + 1 == 32 * qh + rh, rh >= 0, rh < 32, qh >= 0]
+    # the values a reader is actually handed: each written spelling as the real card writer / card reader pair returns it
+    # (quoted-string cards come back with their padding: '0       ')
+    readback = []
     for dv, padded in DIRECTIO_VARIANTS:
+        if dv is not None and "'" not in str(dv):      # (a value that itself contains quotes does not survive the card reader; not a use case)
+            rb = RU.get_header_key_val(RU.format_header_line('DIRECTIO', dv))[1]
+            if all(rb != v for v, _ in DIRECTIO_VARIANTS + readback):
+                readback.append((rb, padded))
+    for dv, padded in DIRECTIO_VARIANTS + readback:
         defs = []
         want = writer_model(z3.ToReal(ni), padded, defs)
         pre = pre0 + defs
